@@ -20,7 +20,7 @@ The harness replays every emitted state on the real mystic functions:
   definitions      real value (float) vs the exact rational TLC printed, for python lists and numpy
                    arrays, weighted, and with weights=None on the all-ones states;
   post-conditions  call the real impose_* / normalize ..., measure the RESULT exactly (the returned
-                   floats are dyadic rationals; fractions.Fraction) and require: reached observable =
+                   floats are dyadic rationals; integer arithmetic) and require: reached observable =
                    target, kept observables = the values TLC printed for the input, designated weights
                    exactly 0.0, no other weight lost;
   sequences        feed the real output of call 1 into call 2 and compare the observables in `det` with
@@ -508,7 +508,7 @@ def replay_seq_state(mods, hdr, st, idx, res):
         res.violation("sequence[%s]:raises-%s" % (">".join(names), type(ex).__name__),
                       {"init": [s0, w0], "hist": hist, "error": repr(ex)[:300]}, "%s on %s %s raised %r" % (hist, s0, w0, ex))
         return
-    res.case("sequence", len(hist) == 2)
+    res.case("sequence[%s]" % ">".join(x[len("impose_"):] if x.startswith("impose_") else x for x in names), len(hist) == 2)
     res.traces += 1
     ctx = {"init": [s0, w0], "hist": hist, "result": [[float(x) for x in S], [float(x) for x in W]], "spec_state": st["light"], "det": st["det"]}
     if not finite(S) or not finite(W):
@@ -545,8 +545,9 @@ def refs_of(hdr):
     return out
 
 
-def run_job(job):
-    """one TLC shard + its replay; runs in a forked worker (inherits in-memory mutants of mystic)"""
+def run_job(job, only=None):
+    """one TLC shard + its replay; runs in a forked worker (inherits in-memory mutants of mystic).
+    only: predicate on emitted states (used by --replay)"""
     kind, cfg, nsh, sh = job
     import numpy as np
     import warnings
@@ -566,6 +567,8 @@ def run_job(job):
             return printed, res.tlc
     if res.tlc.get("violated"):
         res.spec_violated = res.tlc["violated"]
+    if kind == "facts":            # design invariants only (one call deep, incl. the trimming / median facts): nothing to replay
+        return res
     if not printed or not isinstance(printed[0], dict) or "ops" not in printed[0]:
         raise RuntimeError("TLC output of %s has no header" % (job,))
     hdr = printed[0]
@@ -573,6 +576,8 @@ def run_job(job):
     states = printed[1:]
     if any(not isinstance(x, dict) for x in states):
         raise RuntimeError("unparsed TLC line in %s" % (job,))
+    if only is not None:
+        states = [x for x in states if only(x)]
     mods = (mm, md, np)
     if kind == "defs":
         for idx, st in enumerate(states):
@@ -590,6 +595,41 @@ def run_job(job):
     return res
 
 
+def mix(s, w):
+    """the shard hash MixTo of Moments.tla (only decides which TLC process emits a state)"""
+    h = 0
+    for a_, b_ in zip(s, w):
+        h = (h * 3 + a_ + 7 * b_ + 40) % 1000003
+    return h
+
+
+def do_replay(a):
+    """bin/check C18 --replay out/C18/replay_x.json: let TLC re-emit the state of the artefact, replay it on the
+    current tree, print what is (still) violated.  exit 1 iff the recorded class reproduces."""
+    import json
+    art = json.load(open(a.replay))
+    d = art["detail"]
+    if "init" in d:
+        s, w = d["init"]
+        hist = d["hist"]
+        job = ("seq", "MC_Moments_seq_quick.cfg", 64, mix(s, w) % 64)
+        only = lambda x: x["init"] == [s, w] and x["hist"] == hist
+    else:
+        s, w = d["samples"], d["weights"]
+        cfg = "MC_Moments_defs_len4.cfg" if len(s) == 4 else ("MC_Moments_defs_thorough.cfg" if art.get("tier") == "thorough" else "MC_Moments_defs_quick.cfg")
+        job = ("defs", cfg, 64, mix(s, w) % 64)
+        only = lambda x: [v[0] for v in x["s"]] == s and [v[0] for v in x["w"]] == w
+    r = run_job(job, only=only)
+    print("replayed %d case(s) of the state samples=%s weights=%s (%s)" % (r.cases, s, w, job[1]))
+    for k, (cnt, dets) in sorted(r.viol.items()):
+        print("VIOLATION property=C18 class=%s count=%d" % (k, cnt))
+        for det, what in dets[:1]:
+            print("  " + what[:600])
+    if r.cases == 0:
+        raise RuntimeError("TLC did not emit the state of %s" % a.replay)
+    return 1 if art["key"] in r.viol else 0
+
+
 def plan(a):
     jobs = []
     if a.tier == "quick":
@@ -597,11 +637,13 @@ def plan(a):
         jobs += [("defs", "MC_Moments_defs_quick.cfg", nd, i) for i in range(nd)]
         ns, take = 64, 4
         jobs += [("seq", "MC_Moments_seq_quick.cfg", ns, (a.seed * take + i) % ns) for i in range(take)]
+        jobs += [("facts", "MC_Moments_facts.cfg", 8, a.seed % 8)]
     else:
         n4, nd, ns = 64, 16, 64
         jobs += [("defs", "MC_Moments_defs_len4.cfg", n4, i) for i in range(n4)]       # longest jobs first
         jobs += [("seq", "MC_Moments_seq_thorough.cfg", ns, i) for i in range(ns)]
         jobs += [("defs", "MC_Moments_defs_thorough.cfg", nd, i) for i in range(nd)]
+        jobs += [("facts", "MC_Moments_facts.cfg", 8, i) for i in range(8)]
     return jobs
 
 
@@ -619,7 +661,7 @@ RULE = ("TLC enumerates every (samples, weights) with samples of length 1-3 over
         "where a clause is 'definitions' (all real definition functions on list and ndarray inputs, weights=None too on "
         "all-ones states), one (transform, target) of the post-condition table, one index/pair selection of "
         "impose_support/unweighted/collapse, or one emitted sequence of <= 2 transform calls (sequence class: length 3 "
-        "(thorough 2-3) over {-1,0,2} x weights {0,1,3}; quick replays 4 of 64 shards chosen by the seed). Cases are "
+        "over {-1,0,2} x weights {0,1,3}; quick replays 4 of its 64 shards chosen by the seed, thorough all). Cases are "
         "distinct by construction (TLC emits each state once, each clause is enumerated once per state). Non-trivial: "
         "definitions on a state with non-zero variance; a transform whose target differs from the current value; a "
         "selection that removes non-zero weight; a sequence of two calls")
@@ -840,17 +882,48 @@ def selftest(a):
 HAMMING = None
 
 
+def apply_proposed_fixes():
+    """development aid (--with-proposed-fixes): the repairs proposed for the genuine defects this check found,
+    monkey-patched in this process only, to show that the check is quiet once they are in.  Never the evidence."""
+    import mystic.tools as tools
+    orig = tools.connected
+
+    def connected(pairs):
+        collapse = orig(pairs)
+        for k, v in collapse.items():
+            v.discard(k)              # proposed: a member is never connected to itself ({(i,j),(j,i)} double-counted w[i])
+        return collapse
+    tools.connected = connected
+
+
 def main():
     global HAMMING
+    proposed = "--with-proposed-fixes" in sys.argv
+    if proposed:
+        sys.argv.remove("--with-proposed-fixes")
     a = tier_seed()
     assert_repo()
     import mystic.math.measures  # noqa: F401  (imported before forking so every worker shares it)
     import mystic.math.distance as md
     HAMMING = md.hamming
+    if proposed:
+        apply_proposed_fixes()
+        print("NOTE: --with-proposed-fixes: mystic is patched in memory; this run is not evidence about the unchanged tree")
     if a.selftest:
         return selftest(a)
+    if a.replay:
+        return do_replay(a)
     ck = new_check(a)
     explore(ck, a)
+    if proposed:                      # keep the evidence file of the last real run
+        evp = os.path.join(os.path.dirname(os.path.dirname(os.path.abspath(__file__))), "evidence", "C18.json")
+        old = open(evp, "rb").read() if os.path.exists(evp) else None
+        rc = ck.finish()
+        if old is None:
+            os.remove(evp)
+        else:
+            open(evp, "wb").write(old)
+        return rc
     return ck.finish()
 
 
